@@ -95,9 +95,11 @@ type Spec struct {
 	// SignedReveal, when set, is the key whose reveal value is written INSIDE the deactivate's signed data (the
 	// request-level reveal value stays RevealKey's): an attacker's self-consistent signed part
 	SignedReveal *Key
-	Nonce        string
-	HeaderAlg    string // overrides the "alg" protected header ("" = the signing key's algorithm)
-	CrvSpell     string // overrides the spelling of "crv" inside the signed JWK ("" = as is)
+	// SfxType is the optional "type" member of a create's suffix data
+	SfxType   string
+	Nonce     string
+	HeaderAlg string // overrides the "alg" protected header ("" = the signing key's algorithm)
+	CrvSpell  string // overrides the spelling of "crv" inside the signed JWK ("" = as is)
 }
 
 // Op is a built request with its fact vector.
@@ -206,7 +208,7 @@ func Build(s Spec) *Op {
 	req := map[string]interface{}{}
 	switch s.Type {
 	case operation.TypeCreate:
-		sd := wireObject("deltaHash", deltaHash, "recoveryCommitment", s.NextRec, "anchorOrigin", s.Origin)
+		sd := wireObject("deltaHash", deltaHash, "recoveryCommitment", s.NextRec, "anchorOrigin", s.Origin, "type", s.SfxType)
 		req["type"] = "create"
 		req["suffixData"] = sd
 		req["delta"] = delta
